@@ -1305,8 +1305,10 @@ class Reaction(Object):
                 )
             else:
                 # Reset them with add_metabolites
+                # metabolites that were not part of the reaction before are
+                # reset to a coefficient of zero, i.e., removed again
                 mets_to_reset = {
-                    key: old_coefficients[model.metabolites.get_by_any(key)[0]]
+                    key: old_coefficients.get(model.metabolites.get_by_any(key)[0], 0)
                     for key in metabolites_to_add.keys()
                 }
 
